@@ -9,8 +9,17 @@ the real code produces.
 -/
 namespace Qv.Spec
 
+@[inline] def byteAt (b : ByteArray) (i : Nat) : Nat := if i < b.size then (b.get! i).toNat else 0
+
+/-- big-endian unsigned integer of `n` bytes at `off` (bytes beyond EOF read 0) -/
 def be (b : ByteArray) (off n : Nat) : Nat :=
-  (List.range n).foldl (fun acc k => acc * 256 + (if off + k < b.size then (b.get! (off + k)).toNat else 0)) 0
+  match n with
+  | 8 => ((((((byteAt b off * 256 + byteAt b (off+1)) * 256 + byteAt b (off+2)) * 256 + byteAt b (off+3)) * 256
+            + byteAt b (off+4)) * 256 + byteAt b (off+5)) * 256 + byteAt b (off+6)) * 256 + byteAt b (off+7)
+  | 4 => ((byteAt b off * 256 + byteAt b (off+1)) * 256 + byteAt b (off+2)) * 256 + byteAt b (off+3)
+  | 2 => byteAt b off * 256 + byteAt b (off+1)
+  | 1 => byteAt b off
+  | _ => (List.range n).foldl (fun acc k => acc * 256 + byteAt b (off + k)) 0
 
 structure Hdr where
   version : Nat
@@ -180,7 +189,7 @@ def maxCluster (m : Img) (r : Refs) : Nat :=
   -- every cluster covered by an existing refblock
   let covered := (List.range m.rtEntries).foldl (fun acc i =>
     if m.word (m.h.rtOff + i * 8) ≠ 0 then max acc ((i + 1) * m.rbEntries) else acc) 0
-  max bnd (min covered (bnd + 4 * m.rbEntries))
+  max bnd (min covered (bnd + 64))
 
 structure Verdict where
   structural : List String      -- alignment / reserved bits / flags / double references
@@ -210,15 +219,20 @@ def Verdict.text (v : Verdict) : String :=
   let parts := (if v.structural.isEmpty then [] else [s!"structural({v.structural.length}): {first v.structural}"]) ++
                (if v.under.isEmpty then [] else [s!"under({v.under.length}): {first v.under}"]) ++
                (if v.leaks.isEmpty then [] else [s!"leaks({v.leaks.length}): {first v.leaks}"])
-  "fail " ++ "; ".intercalate parts
+  let leakIds := v.leaks.take 64 |>.map (fun l => ((l.splitOn " ").getD 1 "").drop 8 |>.toString)
+  "fail " ++ "; ".intercalate parts ++ (if v.leaks.isEmpty then "" else " leaked=" ++ ",".intercalate leakIds)
 
 /-- one 512-byte sector as a token: `some w` if all 64 little-endian words are
     equal (0 = zeros), `none` if mixed; beyond EOF reads as zeros -/
 def sectorTok (b : ByteArray) (off : Nat) : Option Nat :=
-  let w := fun k => (List.range 8).foldr (fun j acc => acc * 256 +
-    (if off + k * 8 + j < b.size then (b.get! (off + k * 8 + j)).toNat else 0)) 0
-  let first := w 0
-  if (List.range 64).all (fun k => w k = first) then some first else none
+  -- little-endian first word
+  let first := (List.range 8).foldr (fun j acc => acc * 256 + byteAt b (off + j)) 0
+  -- every byte equals the byte 8 positions before it
+  let rec go (i : Nat) (fuel : Nat) : Bool :=
+    match fuel with
+    | 0 => true
+    | fuel + 1 => if byteAt b (off + i) = byteAt b (off + i - 8) then go (i + 1) fuel else false
+  if go 8 504 then some first else none
 
 /-- guest sector `s` read from the file alone, per the specification; `back`
     gives the backing chain's content; compressed clusters are reported as
